@@ -287,7 +287,7 @@ func outerLet() []*gen.Stmt {
 }
 
 func GeneratedLoopScopes() {
-	p := gen.Profile{Lets: true, Shadow: true, Ctl: true, Ifs: true, Conds: 2, Vals: 2, Pres: 2, Posts: 3, Leafs: 2, Iters: 2}
+	p := gen.Profile{Lets: true, Shadow: true, Ctl: true, NoKey: true, Conds: 2, Vals: 2, Pres: 2, Posts: 3, Leafs: 2, Iters: 1}
 	if vrt.Tier() > 0 {
 		p = gen.Profile{Lets: true, Shadow: true, Assigns: true, Ctl: true, Ifs: true, Loops: true, Conds: 3, Vals: 3, Iters: 4}
 	}
@@ -300,7 +300,7 @@ func GeneratedLoopScopes() {
 }
 
 func GeneratedFunctionScopes() {
-	p := gen.Profile{Lets: true, Shadow: true, Ctl: true, Conds: 2, Vals: 3, Pres: 2}
+	p := gen.Profile{Lets: true, Shadow: true, Ctl: true, Conds: 2, Vals: 2, Pres: 2}
 	if vrt.Tier() > 0 {
 		p.Assigns, p.Conds, p.Vals, p.Pres = true, 3, 0, 0
 	}
@@ -311,14 +311,13 @@ func GeneratedFunctionScopes() {
 	}
 	var prog []*gen.Stmt
 	prog = append(prog, outerLet()...)
-	prog = append(prog, gen.Fn("f", []string{param}, g.FnBody(param, 0)))
+	prog = append(prog, gen.Fn("f", []string{param}, g.FnBody(param, 0, "")))
 	arg := gen.Var("x")
-	if vrt.Choice(2) == 1 {
-		arg = gen.Add(gen.Var("x"), gen.Lit(1))
-	}
-	switch vrt.Choice(3) {
+	switch vrt.Choice(4) {
 	case 0:
 		prog = append(prog, gen.Out(gen.Call("f", arg)))
+	case 3:
+		prog = append(prog, gen.Out(gen.Call("f", gen.Add(gen.Var("x"), gen.Lit(1)))))
 	case 1:
 		// called from inside a loop: the callee must not see or disturb the loop's names
 		prog = append(prog, gen.For("", "e", gen.Var("xs"), []*gen.Stmt{gen.Out(gen.Call("f", gen.Var("e"))), gen.Out(gen.Var("e"))}))
